@@ -143,7 +143,7 @@ CHECKS = {
     },
     "C18": {
         "packages": ["vchecks", "vgen"],
-        "steps": [vc("c18a", "shapeset", 1, 1, 1), l3("c18b", "derived", 1, 1, 1, gen=GEN_SHAPES)],
+        "steps": [vc("c18a", "shapeset", 1, 1, 1), l3("c18b", "derived", 1, 1, 1, gen=GEN_SHAPES), l3("c18-body", "body", 60000, 3200000, gen=GEN_MAGIC)],
         "assumptions": L3_ASSUME,
     },
     "C07": {
